@@ -103,7 +103,9 @@ def step (c : Cfg) (s : State) (a : Nat) : State × List Ev :=
   | Kind.dtor, Pc.init => if othersDone c s then dtorLoad s a else (setPc s a Pc.blocked, [Ev.waitBlock a])
   | Kind.dtor, Pc.blocked => dtorLoad s a
   | Kind.dtor, Pc.dloaded true =>
-      ({ s with fut := some none, resolves := s.resolves + 1, pc := upd s.pc a (Pc.dloaded false) }, [Ev.xchgSlot a])
+      -- `m->resolve()`; the promise object is gone afterwards (modelled by clearing `owner`)
+      ({ s with fut := some none, resolves := s.resolves + 1, owner := false, pc := upd s.pc a (Pc.dloaded false) },
+       [Ev.xchgSlot a])
   | Kind.dtor, _ => (setPc s a Pc.fin, [Ev.fin a])
   | _, Pc.init => claim s a
   | Kind.startw _, Pc.won =>
